@@ -910,7 +910,7 @@ package mocrelay
 //@   ensures added == g(lastadd, c)
 //@   promises all(k, eventCacheDeletedEventKey, has(c.deleted, k) ==> ((old(has(c.deleted, k)) && c.deleted[k] == old(c.deleted[k])) || fresh(c.deleted[k])))
 //@   promises all(k, eventCacheEvsIndexKey, has(c.evsIndex.idx, k) ==> ((old(has(c.evsIndex.idx, k)) && c.evsIndex.idx[k] == old(c.evsIndex.idx[k])) || fresh(c.evsIndex.idx[k])))
-//@   promises len(g(addlog, c)) == len(old(g(addlog, c))) + 1 && g(addlog, c)[len(old(g(addlog, c)))] == event && forall(i, 0, len(old(g(addlog, c))), g(addlog, c)[i] == old(g(addlog, c))[i])
+//@   promises len(g(addlog, c)) == len(old(g(addlog, c))) + 1 && forall(i, 0, len(g(addlog, c)), g(addlog, c)[i] == ite(i < len(old(g(addlog, c))), old(g(addlog, c))[i], event))
 
 //@ func EventCache.Find
 //@   serves C16
@@ -1170,8 +1170,9 @@ package mocrelay
 //@ func simpleCacheHandler.Restore
 //@   serves C16
 //@   requires h != nil && h.c != nil
+//@   requires forall(i, 0, len(jsondecoded([]*Event, readAllOf(r))), jsondecoded([]*Event, readAllOf(r))[i] != nil)
 //@   ensures[C16] result == nil ==> (jsonok([]*Event, readAllOf(r)) && len(g(addlog, h.c)) == len(old(g(addlog, h.c))) + len(jsondecoded([]*Event, readAllOf(r))))
-//@   ensures[C16] result == nil ==> forall(i, 0, len(jsondecoded([]*Event, readAllOf(r))), g(addlog, h.c)[len(old(g(addlog, h.c))) + i] == jsondecoded([]*Event, readAllOf(r))[i])
+//@   ensures[C16] result == nil ==> forall(j, 0, len(g(addlog, h.c)), g(addlog, h.c)[j] == ite(j < len(old(g(addlog, h.c))), old(g(addlog, h.c))[j], jsondecoded([]*Event, readAllOf(r))[j - len(old(g(addlog, h.c)))]))
 //@   loop 1 as i
 //@     invariant len(g(addlog, h.c)) == len(old(g(addlog, h.c))) + i
-//@     invariant forall(j, 0, i, g(addlog, h.c)[len(old(g(addlog, h.c))) + j] == events[j]) && forall(j, 0, len(old(g(addlog, h.c))), g(addlog, h.c)[j] == old(g(addlog, h.c))[j])
+//@     invariant forall(j, 0, len(g(addlog, h.c)), g(addlog, h.c)[j] == ite(j < len(old(g(addlog, h.c))), old(g(addlog, h.c))[j], events[j - len(old(g(addlog, h.c)))]))
